@@ -41,11 +41,21 @@ impl PushSubscriptionsRegistry {
     /// If `config` is `None`, removes the current entry.
     pub fn set(&self, name: SubscriptionName, config: Option<PushConfig>) {
         let mut state = self.state.write();
+        #[cfg(deltio_verif)]
+        let (verif_name, verif_set) = (name.clone(), config.is_some());
         if let Some(config) = config {
             state.push_subscriptions.entry(name).or_insert(config);
         } else {
             let _ = state.push_subscriptions.remove(&name);
         }
+        #[cfg(deltio_verif)]
+        crate::verif::emit("r.set", |_| {
+            serde_json::json!({
+                "name": verif_name.to_string(),
+                "set": verif_set,
+                "endpoint": state.push_subscriptions.get(&verif_name).map(|p| p.endpoint.clone()),
+            })
+        });
     }
 
     /// Gets the entries in the registry.
